@@ -1,24 +1,26 @@
 """C01 - exact GP posterior equals the closed-form Gaussian conditional on every path the settings can select.
 Spec: ExactPosterior.tla (settings lattice -> path; exact rational path formulas = conditional)."""
 import itertools
+import math
 import os
 import random
 from fractions import Fraction
 
 from harness import core, tlc
 from checks.c04 import tla
+from checks import c01_knobs
 
 LEVEL = "model_checking"
 PID = "C01"
 
 
-def write_mc(workdir, name, part, instances=()):
+def write_mc(workdir, name, part, instances=(), maxoff=1):
     os.makedirs(workdir, exist_ok=True)
     mod = "MC_ExactPosterior_" + name
     with open(os.path.join(workdir, mod + ".tla"), "w") as f:
         f.write("---- MODULE %s ----\nEXTENDS ExactPosterior\nInstDef == {%s}\n====\n" % (mod, ",\n  ".join(tla(i) for i in instances)))
     cfg = os.path.join(workdir, mod + ".cfg")
-    tlc.write_cfg(cfg, spec="Spec", constants={"Part": part, "Instances": "<- InstDef"}, invariants=["LatticeOK", "AlgebraOK"])
+    tlc.write_cfg(cfg, spec="Spec", constants={"Part": part, "Instances": "<- InstDef", "MaxOff": maxoff}, invariants=["LatticeOK", "AlgebraOK", "KnobsOK"])
     return os.path.join(workdir, mod + ".tla"), cfg
 
 
@@ -92,17 +94,19 @@ def predict(torch, settings, model, lik, xs, cell, n_joint, lik_kwargs=None):
     return mean, cov, var, mmean, mcov
 
 
-def compare(torch, res, desc, cell, got, want, sigbase):
-    """got = (mean, cov, var, marg mean, marg cov); want = (mean, cov, marg cov)"""
+def compare(torch, res, desc, cell, got, want, sigbase, cg_floor=(0.0, 0.0)):
+    """got = (mean, cov, var, marg mean, marg cov); want = (mean, cov, marg cov); cg_floor = absolute (mean, covariance) allowance for
+    CG's own floor on systems it cannot finish within its minimum of 10 iterations"""
     rt, at = tolerance(cell)
     mean, cov, var, mmean, mcov = got
     wm, wc, wmc = want
     if cell["skipvar"]:
         wc = torch.zeros_like(wc)
         wmc = wmc - want[1]          # zero posterior covariance + the noise
-    ok, why = core.close(mean.reshape(wm.shape), wm, rt, at)
+    ok, why = core.close(mean.reshape(wm.shape), wm, rt, at + cg_floor[0])
     if not ok:
         return res.update(ok=False, sig=sigbase + "/mean", detail="%s: posterior mean differs from the Gaussian conditional: %s" % (desc, why))
+    at = at + cg_floor[1]
     ok, why = core.close(cov.reshape(wc.shape), wc, rt, at)
     if not ok:
         return res.update(ok=False, sig=sigbase + "/covariance", detail="%s: posterior covariance differs from the Gaussian conditional: %s" % (desc, why))
@@ -111,7 +115,7 @@ def compare(torch, res, desc, cell, got, want, sigbase):
         ok, why = core.close(var.reshape(dg.shape), dg.clamp_min(0), rt, at * 10)
         if not ok:
             return res.update(ok=False, sig=sigbase + "/variance", detail="%s: variance differs from the diagonal of the conditional covariance: %s" % (desc, why))
-    ok, why = core.close(mmean.reshape(wm.shape), wm, rt, at)
+    ok, why = core.close(mmean.reshape(wm.shape), wm, rt, at + cg_floor[0])
     ok2, why2 = core.close(mcov.reshape(wmc.shape), wmc, rt, at)
     if not (ok and ok2):
         return res.update(ok=False, sig=sigbase + "/likelihood-noise", detail="%s: likelihood(posterior) is not posterior + observation noise: %s %s" % (desc, why, why2))
@@ -125,6 +129,8 @@ def _worker(item):
     for c in item["cases"]:
         if c["level"] == "L1":
             out.append(run_l1(torch, gpytorch, settings, c))
+        elif c["level"] == "L3":
+            out.append(c01_knobs.run_l3(torch, gpytorch, settings, c))
         else:
             out.append(run_l2(torch, gpytorch, settings, c))
     return out
@@ -185,6 +191,7 @@ def run_l2(torch, gpytorch, settings, c):
     D = torch.float64
     cell, fam, shape, seed = c["cell"], c["fam"], c["shape"], c["seed"]
     g = torch.Generator().manual_seed(seed)
+    torch.manual_seed(seed)      # multitask kernels / likelihoods initialise their factors (and Lanczos its probe) from the global generator
     K = gpytorch.kernels
     mb = tuple(shape.get("model_batch", ()))
     tb = tuple(shape.get("test_batch", ()))
@@ -270,6 +277,16 @@ def run_l2(torch, gpytorch, settings, c):
         wm = mj[..., ntr:] + (Ksx @ sol.unsqueeze(-1)).squeeze(-1)
         wc = Kj[..., ntr:, ntr:] - Ksx @ torch.cholesky_solve(Ksx.transpose(-1, -2), Lc)
         wmc = wc + Ste
+        floor = (0.0, 0.0)
+        if not cell["chol"] and ntr > 10:
+            # more unknowns than CG's minimum of 10 iterations: CG stops at its own floor (relative residual 1e-5 / sqrt(lambda_min), the guard of
+            # its divisions), propagated to the outputs exactly as in c01_knobs
+            rho = c01_knobs.CG_FLOOR / math.sqrt(float(torch.linalg.eigvalsh(A).min()))
+            W = torch.cholesky_solve(Ksx.transpose(-1, -2), Lc)
+            wn, kn, bn = W.norm(dim=-2), Ksx.norm(dim=-1), (yy - mj[..., :ntr]).norm(dim=-1)
+            ncols = max(1, wn.numel())
+            floor = (float((c01_knobs.SAFETY * rho * bn.unsqueeze(-1) * wn).max()),
+                     0.0 if cell["fpv"] else float((c01_knobs.SAFETY * ncols * rho * wn.unsqueeze(-1) * kn.unsqueeze(-2)).max()))
     if cond > 1e4:
         res.update(nontrivial=False, n=0)
         return res
@@ -279,7 +296,7 @@ def run_l2(torch, gpytorch, settings, c):
     if not ok:
         res.update(ok=False, sig=sig + "/raises", detail="%s: %s" % (desc, got))
         return res
-    compare(torch, res, desc, cell, got, (wm, wc, wmc), sig)
+    compare(torch, res, desc, cell, got, (wm, wc, wmc), sig, floor)
     if res["ok"] and "sample" not in res and seed % 50 == 0:
         res["sample"] = dict(case=desc)
     return res
@@ -291,20 +308,40 @@ def run(ck):
     rnd = random.Random(ck.seed)
     ck.rule = ("cells = every combination of the 7 prediction-relevant settings (128 paths, ExactPosterior.tla); L1: TLC's exact rational posteriors of "
                "linear-kernel instances through a real ExactGP on sampled cells; L2: seeded models (kernel x mean x likelihood x shape class) on every cell "
-               "against the Gaussian conditional computed densely from the model's own K, m, S; non-trivial = a non-default path")
-    ck.assumptions = ["iterative paths are run as exact algorithms (CG tolerance 1e-12, Lanczos at full rank) and compared at 2e-5; Cholesky paths at 1e-7",
-                      "instances with cond(Kxx+S) > 1e4 are skipped (counted)", "float64, n <= 8 training points",
+               "against the Gaussian conditional computed densely from the model's own K, m, S; "
+               "L3: the accuracy-knob lattice (part knobs: path selectors x {eval_cg_tolerance, cg_tolerance, max_cg_iterations, preconditioner size, "
+               "max_root_decomposition_size, probe count, num_trace_samples, max_lanczos_quadrature_iterations} with at most two knobs off their default, every "
+               "other setting UNTOUCHED) on models with n = 48..60 / 120..132 / 804..812 training points (short lengthscale, cond 50..3000); the comparison "
+               "tolerance is derived from the knob values: Cholesky -> 1e-7; CG at eval_cg_tolerance = t (the ambient cg_tolerance does not enter) -> "
+               "|mean_i - cond_i| <= 2 rho |y-m| |A^-1 k_i|, |cov_ij - cond_ij| <= 2 C rho |k_j| |A^-1 k_i| with rho = max(t, 1e-5/sqrt(lambda_min(A))) "
+               "(CG's stopping rule: mean relative residual over the C columns < t; 1e-5 = sqrt of linear_cg's division guard) and A = Kxx+S; "
+               "Lanczos root at rank >= n (n <= 800) -> 2 * tridiagonal_jitter * (tr A / n) |A^-1 k_i| |A^-1 k_j| + 1e-4 relative + 1e-6, failing only if 4 "
+               "independent probe vectors all miss it; "
+               "max_cg_iterations below n, Lanczos rank below n, Lanczos above n = 800 -> nothing promised, not compared; non-trivial = a non-default path")
+    ck.assumptions = ["L1/L2: iterative paths are run as exact algorithms (CG tolerance 1e-12, Lanczos at full rank) and compared at 2e-5; Cholesky paths at 1e-7",
+                      "L2 systems with more than 10 unknowns (multitask, 12) on the CG path additionally get CG's own floor (relative residual "
+                      "1e-5/sqrt(lambda_min), propagated as in L3): CG cannot finish them within its minimum of 10 iterations",
+                      "instances with cond(Kxx+S) > 1e4 are skipped (counted)", "float64; L1/L2 n <= 8 training points, L3 n >= 48",
                       "Lanczos-root cells are replayed on generic (seeded float) instances only: for the integer L1 instances repeated eigenvalues make "
-                      "the Krylov space smaller than n, where Lanczos is not an exact algorithm"]
+                      "the Krylov space smaller than n, where Lanczos is not an exact algorithm",
+                      "L3: at the default eval_cg_tolerance (1e-2) CG is legitimately inexact; such cells are compared only at the (loose) bound their own "
+                      "tolerance implies; the CG residual bound relies on linear_cg's documented stopping rule and its division guard eps = 1e-10",
+                      "L3: a Lanczos root (fast_pred_var) is exact at full rank for almost every random probe vector only - linear_operator's lanczos_tridiag "
+                      "stops early when its re-orthogonalisation fails (about 1 probe in 2000 at n = 48..60; 2 in 8 on one fixed-noise model with n = 804: rank 803, "
+                      "covariance off by 1e-3); the spec therefore promises "
+                      "nothing for the Lanczos covariance above n = 800 and a smaller cell fails only when 4 independent probes all miss the tolerance",
+                      "L3: max_cg_iterations(25) together with max_lanczos_quadrature_iterations(50) is rejected by linear_cg by design and is not a cell"]
     wd = os.path.join(tlc.BUILD, PID)
     insts = gen_instances(rnd, 400 if thorough else 120, 300 if thorough else 80)
     jobs = []
     mod, cfg = write_mc(wd, "lattice", "lattice")
     jobs.append(((mod, cfg), dict(name=PID + "/lattice", dump=True, check=False, workers=2)))
     mod, cfg = write_mc(wd, "algebra", "algebra", insts)
-    jobs.append(((mod, cfg), dict(name=PID + "/algebra", dump=True, check=False, workers=8, timeout=1500)))
-    rs = tlc.run_many(jobs, parallel=2)
-    for lab, r in zip(("settings lattice", "rational path formulas"), rs):
+    jobs.append(((mod, cfg), dict(name=PID + "/algebra", dump=True, check=False, workers=min(8, core.NPROC), timeout=1500)))
+    mod, cfg = write_mc(wd, "knobs", "knobs", maxoff=2)
+    jobs.append(((mod, cfg), dict(name=PID + "/knobs", dump=True, check=False, workers=2)))
+    rs = tlc.run_many(jobs, parallel=3)
+    for lab, r in zip(("settings lattice", "rational path formulas", "accuracy-knob lattice"), rs):
         ck.add_tlc(r, "ExactPosterior " + lab)
         if r.violation:
             ck.model_drift("ExactPosterior.tla %s violates %s" % (lab, r.violation["name"]))
@@ -339,12 +376,65 @@ def run(ck):
                     continue
                 for s in seeds:
                     cases.append(dict(level="L2", fam=fam, shape=shape, cell=cell, seed=ck.seed * 1000 + fi * 100 + si * 10 + s))
+    l3 = knob_cases(ck, rs[2], rnd, thorough)
+    cases += l3
     rnd.shuffle(cases)
     items = [dict(cases=cases[i:i + 10]) for i in range(0, len(cases), 10)]
     results = core.pmap(_worker, items, chunksize=1)
     ck.absorb(results)
     l1 = sum(1 for c in cases if c["level"] == "L1")
-    ck.section("replay", cells=len(cells), L1_cases=l1, L2_cases=len(cases) - l1, rational_instances=len(insts), skipped_ill_conditioned=sum(1 for r in results if r.get("n") == 0))
+    ck.section("replay", cells=len(cells), L1_cases=l1, L2_cases=len(cases) - l1 - len(l3), L3_cases=len(l3), rational_instances=len(insts),
+               skipped_ill_conditioned=sum(1 for r in results if r.get("n") == 0 and not r.get("nopromise")))
+    worst = {}
+    for r in results:
+        for k, v in (r.get("margins") or {}).items():
+            kk = "%s/%s" % (k, "".join(map(str, r["case"]["exp"][k])))
+            worst[kk] = max(worst.get(kk, 0.0), round(v, 3))
+    ck.section("knobs", worst_error_over_tolerance=worst, lanczos_probe_redrawn=sum(1 for r in results if r.get("probe_redrawn")))
+
+
+def knob_cases(ck, r, rnd, thorough):
+    """the replayed part of the accuracy-knob lattice: every single-knob cell of every iterative path, sampled pairs, sampled direct paths"""
+    sts = [(dict(st["c"]), dict(st["out"])) for st in r.states()]
+    if len(sts) != 96 * 125:
+        ck.vacuous("accuracy-knob lattice has %d cells instead of 12000" % len(sts))
+    sts.sort(key=lambda ce: c01_knobs.cell_name(ce[0]))
+    single, pairs, direct, nopromise = [], [], [], 0
+    for cell, exp in sts:
+        exp = dict(solve=exp["solve"], root=exp["root"], mean=list(exp["mean"]), cov=list(exp["cov"]))
+        if exp["mean"][0] == "none" and exp["cov"][0] == "none":
+            nopromise += 1
+            continue
+        iterative = exp["solve"] == "cg" or (cell["fpv"] and exp["root"] == "lanczos")
+        off = c01_knobs.off_default(cell)
+        (direct if not iterative else single if len(off) <= 1 else pairs).append((cell, exp))
+    nf = len(c01_knobs.FAMS)
+    out, alone = [], {}
+
+    def add(k, cell, exp, fams):
+        for fi in fams:
+            out.append(dict(level="L3", cell=cell, exp=exp, fam=c01_knobs.FAMS[fi % nf], seed=(ck.seed * 7919 + k * 3 + fi) % 100000))
+    for k, (cell, exp) in enumerate(single):
+        big = cell["nclass"] == "gt800"
+        if big and not thorough and (cell["mcs"] != "default" or not set(c01_knobs.off_default(cell)) <= {"evaltol", "cgtol", "rootsize"}):
+            continue               # quick tier: n > 800 only where the size alone selects CG / Lanczos (every other setting untouched)
+        add(k, cell, exp, range(k, k + (nf if thorough and not big else 1)))
+        for f in c01_knobs.off_default(cell) or ["(defaults)"]:
+            alone[f] = alone.get(f, 0) + 1
+    small = [ce for ce in pairs if ce[0]["nclass"] != "gt800"]
+    for k, (cell, exp) in enumerate(small if thorough else rnd.sample(small, 160)):
+        add(k, cell, exp, [k])
+    bigp = [ce for ce in pairs if ce[0]["nclass"] == "gt800" and ce[0]["mcs"] == "default"]
+    for k, (cell, exp) in enumerate(rnd.sample(bigp, 120 if thorough else 6)):
+        add(k, cell, exp, [k])
+    for k, (cell, exp) in enumerate(rnd.sample([ce for ce in direct if ce[0]["nclass"] != "gt800"], 900 if thorough else 120)):
+        add(k, cell, exp, [k])
+    for f in ("(defaults)", "evaltol", "cgtol", "maxiter", "precond", "rootsize", "probes", "trace", "lq"):
+        if not alone.get(f):
+            ck.vacuous("no replayed cell of an iterative path changes %s alone" % f)
+    ck.section("knobs", lattice_cells=len(sts), cells_promising_nothing=nopromise, iterative_single_knob_cells=len(single), iterative_pair_cells=len(pairs),
+               direct_cells=len(direct), replayed=len(out), single_knob_replayed=alone)
+    return out
 
 
 def replay(rep):
